@@ -12,3 +12,79 @@ def run(ck):
     extra = getattr(tables, 'D_EXTRA', {}).get('C19')
     if extra:
         extra(ck, w)
+    r1_degenerate(ck, w)
+
+
+RA = 'midnight_circuits::parsing::automaton::RawAutomaton::'
+
+
+def r1_degenerate(ck, w):
+    """structural guards for languages included in {epsilon} (automata without transitions): four repaired defects"""
+    from ..core import walk, callee, peel, pat_bindings, expr_str
+    from ..engines import hirq, valflow
+    ck.rule('C19.R1', 'degenerate automata (no transitions: empty language / epsilon) are handled by every construction: (a) the completion of the powerset '
+                      'construction ranges over a marker list that is guarded non-empty; (b) the `complete` flag of a concatenation is not the vacuous truth of '
+                      '`all` over zero factors; (c) RawAutomaton::concat skips, before its optimised branch, a factor whose initial state is final and has no '
+                      'successor; (d) redirect_final_to_initial sizes its result from the states it keeps, not from len - #final')
+    # (a)
+    f = w.fn(RA + 'powerset_construction')
+    comp = [b['i'] for p in f['params'] for b in pat_bindings(p) if b['n'] == 'completion']
+    eb = [n for n in hirq.calls(f['body']) if (callee(n) or '').endswith('Letter::encoding_bound')]
+    ok_a = False
+    if comp and eb:
+        vf = valflow.ValFlow(f, sources=[])
+        # locals the marker argument is built from (one step through `Vec::from_iter(set.iter().copied())`)
+        arg_locals = {x['i'] for x in walk(eb[0]['args'][1]) if x.get('k') == 'local'}
+        for n in walk(f['body']):
+            if n.get('k') in ('let', 'letx') and 'init' in n and any(b['i'] in arg_locals for b in pat_bindings(n['pat'])):
+                arg_locals |= {x['i'] for x in walk(n['init']) if x.get('k') == 'local'}
+        for n in walk(f['body']):
+            if n.get('k') != 'if':
+                continue
+            cl = {x['i'] for x in walk(n['c']) if x.get('k') == 'local'}
+            empt = [m for m in hirq.calls(n['c']) if m.get('m') == 'is_empty' and vf.root_local(m['recv']) in arg_locals]
+            grows = [m for m in hirq.calls(n['a']) if m.get('m') in ('insert', 'push') and vf.root_local(m['recv']) in arg_locals]
+            if comp[0] in cl and empt and grows:
+                ok_a = True
+    ck.record('C19.R1', 'powerset_construction:completion-markers-nonempty', ok_a, 'under completion an empty marker set receives the unmarked marker',
+              'RawAutomaton::powerset_construction completes over `alphabet_size * markers.len()` letters with no guard for an empty marker set: an automaton without '
+              'transitions is not completed and its complement is the empty language', hirq.fn_loc(f))
+    # (b) + (c)
+    g = w.fn(RA + 'concat')
+    ap = [b['i'] for p in g['params'] for b in pat_bindings(p) if b['n'] == 'automata']
+    ok_b = False
+    for n in walk(g['body']):
+        if n.get('k') == 'struct':
+            for name, e in n.get('fs', []):
+                if name == 'complete':
+                    ms = [m for m in hirq.calls(e) if m.get('m') in ('is_empty', 'len') and ap and ap[0] in {x['i'] for x in walk(m['recv']) if x.get('k') == 'local'}]
+                    alls = [m for m in hirq.calls(e) if m.get('m') == 'all']
+                    ok_b = bool(ms) or not alls
+    ck.record('C19.R1', 'concat:complete-flag-not-vacuous', ok_b, '`complete` also tests that there is at least one factor',
+              'RawAutomaton::concat derives `complete` from `all` over the factors only: for zero factors (epsilon) it is vacuously true, completion is skipped '
+              'and epsilon.neg() compiles to the empty language', hirq.fn_loc(g))
+    ok_c = False
+    for lp in [n for n in walk(g['body']) if n.get('k') == 'for']:
+        body = lp['body']
+        stmts = body.get('ss', []) if body.get('k') == 'block' else []
+        for st in stmts[:2]:
+            for n in walk(st):
+                if n.get('k') == 'if' and any(x.get('k') == 'continue' for x in walk(n['a'])):
+                    flds = {fl for _, fl in hirq.field_reads(n['c'])}
+                    if {'final_states', 'initial_state', 'transitions'} <= flds:
+                        ok_c = True
+    ck.record('C19.R1', 'concat:skips-epsilon-factor', ok_c, 'a factor with a final, successor-less initial state is skipped at the top of the loop',
+              'RawAutomaton::concat no longer skips factors recognising exactly the empty word: its optimised branch loses their empty word '
+              '(a.(c* & b?).d rejects "ad")', hirq.fn_loc(g))
+    # (d)
+    h = w.fn(RA + 'redirect_final_to_initial')
+    ok_d = False
+    for n in hirq.calls(h['body']):
+        if (callee(n) or '').endswith('filter_map_transitions') and len(n.get('args', [])) >= 3:
+            e = n['args'][2]
+            names = {x['n'] for x in walk(e) if x.get('k') == 'local'}
+            flds = {fl for _, fl in hirq.field_reads(e)}
+            ok_d = 'final_states' not in flds and bool(names)
+    ck.record('C19.R1', 'redirect_final_to_initial:state-count', ok_d, 'the new state count is taken from the kept states',
+              'RawAutomaton::redirect_final_to_initial computes its state count as len - #final although a final initial state is kept: a zero-state automaton '
+              'with a final state results and minimisation indexes out of bounds', hirq.fn_loc(h))
